@@ -32,7 +32,7 @@ INVARIANTS %(inv)s
 CHECK_DEADLOCK FALSE
 '''
 
-CASE = re.compile(r'^"CASE\|([^|"]*)\|([^|"]*)\|([^|"]*)\|([^|"]*)\|([01]{3})"$', re.M)
+CASE = re.compile(r'^"CASE\|([^|"]*)\|([^|"]*)\|([^|"]*)\|([^|"]*)\|([01]{4})"$', re.M)
 SIGMA = 'BQDZNRPTS%_-/*#;HXa'
 
 
@@ -62,19 +62,27 @@ def witness(out):
 def run(tier):
     seed = vlib.seed()
     quick = tier == 'quick'
-    pool = concurrent.futures.ThreadPoolExecutor(max_workers=3)
+    pool = concurrent.futures.ThreadPoolExecutor(max_workers=4)
     fbuild = pool.submit(vlib.go_build, 'cmd/c10', 'c10')
     params = {'maxlen': 4 if quick else 5, 'exportlen': 3, 'mod': 60 if quick else 400, 'seed': seed % 1000003,
               'inv': 'EscRoundTrip LikeStructure Export'}
     fmain = pool.submit(run_tlc, 'MC_Escape_run.cfg', params, 300 if quick else 800)
     flike = pool.submit(run_tlc, 'MC_Escape_lv.cfg', {'maxlen': 3, 'exportlen': 0, 'mod': 1000003, 'seed': 0, 'inv': 'LikeValue'}, 300)
+    # the family of renderings of a regex label matcher (anchored pattern / equality shortcut for a literal pattern): the
+    # transducers look at one character of context, so length 3 decides it (a run of its own, like LikeValue)
+    fmt_ = pool.submit(run_tlc, 'MC_Escape_mt.cfg', {'maxlen': 3, 'exportlen': 0, 'mod': 1000003, 'seed': 0, 'inv': 'MatcherStructure'}, 300)
     binp = fbuild.result()
     main = fmain.result()
     like = flike.result()
+    mt = fmt_.result()
     sd = vlib.scratch('c10')
     try:
-        states = main.get('distinct', 0) + like.get('distinct', 0)
-        trans = main.get('generated', 0) + like.get('generated', 0)
+        states = main.get('distinct', 0) + like.get('distinct', 0) + mt.get('distinct', 0)
+        trans = main.get('generated', 0) + like.get('generated', 0) + mt.get('generated', 0)
+        mt_violated = bool(mt['violated'])
+        mt_witness = witness(mt['out']) if mt_violated else None
+        if not mt_violated and not mt.get('finished'):
+            raise vlib.Infra('TLC did not finish MC_Escape (MatcherStructure):\n' + mt['out'][-2000:])
         cases = [{'s': m.group(1), 'esc': m.group(2), 'like': m.group(3), 'dec': m.group(4), 'flags': m.group(5)}
                  for m in CASE.finditer(main['out'])]
         spec_viol = list(main['violated'])
@@ -91,7 +99,7 @@ def run(tier):
             raise vlib.Infra('TLC did not finish MC_Escape (LikeValue):\n' + like['out'][-2000:])
         # every exported string is a distinct case; add TLC's own witnesses (they are short, so normally already there)
         have = {c['s'] for c in cases}
-        extra = [w for w in (spec_witness, like_witness) if w is not None and w not in have]
+        extra = [w for w in (spec_witness, like_witness, mt_witness) if w is not None and w not in have]
         expected_exported = sum(20 ** k for k in range(4))
         if not spec_viol and len([c for c in cases if len(c['s']) <= 3]) != expected_exported:
             raise vlib.Infra('TLC exported %d strings of length <= 3, expected %d' % (len([c for c in cases if len(c['s']) <= 3]), expected_exported))
@@ -101,7 +109,7 @@ def run(tier):
             for c in sorted(cases, key=lambda c: (len(c['s']), c['s'])):
                 f.write(json.dumps(c) + '\n')
             for w in extra:
-                f.write(json.dumps({'s': w, 'esc': '', 'like': '', 'dec': '', 'flags': 'xxx'}) + '\n')
+                f.write(json.dumps({'s': w, 'esc': '', 'like': '', 'dec': '', 'flags': 'xxxx'}) + '\n')
         nsh = max(2, min(os.cpu_count() or 4, 16))
         env = dict(os.environ)
         env['TZ'] = 'UTC'
@@ -117,19 +125,22 @@ def run(tier):
         with concurrent.futures.ThreadPoolExecutor(max_workers=nsh) as ex:
             outs = list(ex.map(shard, range(nsh)))
         infra = [e for o in outs for e in (o.get('infra') or [])]
-        if infra:
+        # a position whose baseline cannot be established is an infrastructure problem -- unless requests in positions whose
+        # baseline IS established show violations: those are verdicts from the real code and are not hidden by it
+        if infra and not any(o.get('mismatches') for o in outs):
             raise vlib.Infra('c10 driver: ' + ' || '.join(infra[:3])[:3000])
         conf = outs[0]['conformance']
         stats = {}
         classes = {}
         for o in outs:
             for name, st in o['stats'].items():
-                a = stats.setdefault(name, {'cases': 0, 'reached_sql': 0, 'rejected': 0, 'inexpressible': 0, 'mismatches': 0,
+                a = stats.setdefault(name, {'cases': 0, 'reached_sql': 0, 'rejected': 0, 'inexpressible': 0, 'mismatches': 0, 'via_other_kind': 0, 'plain_quote': 0, 'meta_pattern': 0, 'regex_kinds': bool(st.get('regex_kinds')),
                                             'baseline_slots': st['baseline_slots'], 'baseline_statements': st['baseline_statements']})
-                for k in ('cases', 'reached_sql', 'rejected', 'inexpressible', 'mismatches'):
-                    a[k] += st[k]
+                for k in ('cases', 'reached_sql', 'rejected', 'inexpressible', 'mismatches', 'via_other_kind', 'plain_quote', 'meta_pattern'):
+                    a[k] += st.get(k, 0)
                 for k in ('baseline_slots', 'baseline_statements'):
                     a[k] = max(a[k], st[k])
+                a['regex_kinds'] = a['regex_kinds'] or bool(st.get('regex_kinds'))
             for c, n in (o.get('classes_reached') or {}).items():
                 classes[c] = classes.get(c, 0) + n
         total_cases = sum(o['cases'] for o in outs)
@@ -167,27 +178,39 @@ def run(tier):
                              % (conf['mismatch_count'], json.dumps(conf['mismatches'][:2])))
         if spec_viol and not viols:
             raise vlib.Infra('TLC reports %s violated on Escape.tla (string %s) but no position of the real code reproduces it' % (spec_viol, spec_witness))
+        if mt_violated and not any('matcher' in v['signature'] or 'match[]' in v['signature'] or 'selector' in v['signature'] for v in viols):
+            raise vlib.Infra('TLC reports MatcherStructure violated on Escape.tla (string %s) but no label-matcher position of the real code reproduces it' % mt_witness)
         if like_violated and not any(v['signature'].startswith('value|doLike') or v['signature'].startswith('lexfail|doLike') or v['signature'].startswith('structure|doLike') for v in viols):
             raise vlib.Infra('TLC reports LikeValue violated on Escape.tla (string %s) but no line-filter position of the real code reproduces it' % like_witness)
         # ---- vacuity
-        if len(stats) < 160:
-            raise vlib.Infra('only %d positions were exercised' % len(stats))
-        for name, st in stats.items():
-            if st['cases'] == 0:
-                raise vlib.Infra('position %s was not exercised' % name)
-            free_text = '.ident.' not in name and not name.startswith('tempo.trace.id')
-            if free_text and st['reached_sql'] < 20:
-                raise vlib.Infra('position %s: only %d hostile strings reached SQL' % (name, st['reached_sql']))
-        missing = [c for c in SIGMA if classes.get(c, 0) == 0]
-        if missing:
-            raise vlib.Infra('character classes that never reached SQL: %s' % missing)
+        # (guards of a PASS: with violations in hand they must not turn the verdict into an infrastructure error)
+        if not viols:
+            if len(stats) < 160:
+                raise vlib.Infra('only %d positions were exercised' % len(stats))
+            for name, st in stats.items():
+                if st['cases'] == 0:
+                    raise vlib.Infra('position %s was not exercised' % name)
+                free_text = '.ident.' not in name and not name.startswith('tempo.trace.id')
+                if free_text and st['reached_sql'] < 20:
+                    raise vlib.Infra('position %s: only %d hostile strings reached SQL' % (name, st['reached_sql']))
+            missing = [c for c in SIGMA if classes.get(c, 0) == 0]
+            if missing:
+                raise vlib.Infra('character classes that never reached SQL: %s' % missing)
+            # the family "rendering chosen by the kind of pattern" (Escape.tla MatcherValues / RawShortcutRefuted): every regex
+            # comparison position must have received patterns WITHOUT metacharacter that carry a quote, and patterns with one
+            for name, st in stats.items():
+                if st['regex_kinds'] and (st['plain_quote'] < 3 or st['meta_pattern'] < 3):
+                    raise vlib.Infra('position %s: %d literal patterns with a quote and %d patterns with a metacharacter reached SQL'
+                                     % (name, st['plain_quote'], st['meta_pattern']))
+            if sum(1 for st in stats.values() if st['regex_kinds']) < 30:
+                raise vlib.Infra('only %d regex comparison positions' % sum(1 for st in stats.values() if st['regex_kinds']))
         reached = sum(st['reached_sql'] for st in stats.values())
         cov = {'states': states, 'transitions': trans,
                'traces_validated_against_impl': total_cases + conf['checked'],
                'samples': outs[0].get('samples') or [{'abstract': cases[1]['s'] if len(cases) > 1 else ''}],
                'exhaustive': True,
                'tlc': {'max_len': params['maxlen'], 'strings_checked': main.get('distinct', 0), 'exported': len(cases), 'violated': spec_viol,
-                       'like_value_violated': like_violated, 'like_value_witness': like_witness, 'wall_s': round(main['wall'], 1)},
+                       'matcher_structure_violated': mt_violated, 'like_value_violated': like_violated, 'like_value_witness': like_witness, 'wall_s': round(main['wall'], 1)},
                'conformance': {k: conf[k] for k in conf if k not in ('mismatches',)},
                'positions': len(stats), 'cases_run': total_cases, 'cases_reaching_sql': reached,
                'distinct_nontrivial': sum(o['concrete_strings'] for o in outs),
@@ -196,6 +219,11 @@ def run(tier):
                'positions_never_reaching_sql': sorted(n for n, st in stats.items() if st['baseline_slots'] == 0),
                'classes_reached': classes, 'shards': nsh,
                'mismatching_cases': sum(st['mismatches'] for st in stats.values()),
+               'regex_kind_positions': sum(1 for st in stats.values() if st['regex_kinds']),
+               'literal_patterns_with_quote': sum(st['plain_quote'] for st in stats.values()),
+               'rendered_as_other_kind': sum(st['via_other_kind'] for st in stats.values()),
+               'alt_baseline_errors': sorted({k for o in outs for k in (o.get('alt_baseline_errors') or {})})[:20],
+               'baseline_errors_beside_violations': infra[:5],
                'per_position': stats}
         return {'level': 'model_checking', 'coverage': cov, 'violations': viols,
                 'assumptions': ['ClickHouse tokenises and decodes string literals and LIKE patterns as harness/chsql does (Lexer.cpp / parseComplexEscapeSequence / likePatternToRegexp)',
@@ -206,3 +234,4 @@ def run(tier):
         shutil.rmtree(sd, ignore_errors=True)
         vlib.tlc_cleanup(main)
         vlib.tlc_cleanup(like)
+        vlib.tlc_cleanup(mt)
